@@ -473,6 +473,10 @@ def rule_metric_params(ctx: Ctx) -> None:
     rows = set()
     for p in enum_paths(ctx, fc):
         sub = fact_where(p, lambda k: S(k) == "cmp:set(params.keys())<=set(signature(config).parameters)")
+        if sub is None:
+            # the same test as `the set difference is non-empty` (len(a - b) > 0 is the engine's truthiness atom)
+            diff = fact_where(p, lambda k: S(k) == "truthy:set(params.keys())-set(signature(config).parameters)")
+            sub = None if diff is None else (not diff)
         ctx.require(sub is not None, f"_check_parameters: subset test not recognised [{p.cond_text()[:120]}]")
         rows.add(bool(sub))
         if not sub:
